@@ -42,6 +42,9 @@ CLAIMED["C15"] = ("paired trace validation: seeded whole-API programs executed s
 CLAIMED["C20"] = ("TLA+ MC_Cursor (positional cursors over the live lists of Adjacency, Search step machine, scripts of operations run after the k-th yield) model-checked (LastYieldExists, Bounded, MirrorKept); every (graph, loop, script) run replayed inside the real loop bodies / closures on all four flavours; disagreements and seeded random runs judged step by step by TLC (TraceCursor); self-deadlocks reported through the lock-point hook",
   "All graphs with 3 nodes/<=2 edges (thorough <=3) x loops {iter_out,iter_in,iter,bfs,dfs,pfs,pre,post} x directions x cycle mode x every single-operation script at every yield index (thorough: also 2-operation scripts); random 6-node runs with up to 6 script operations.", "§4 C20")
 
+CLAIMED["C19"] = ("TLA+ Ownership (strong holders = program handles, container, live Edge lists / orderings / Paths; adjacency entries weak) model-checked (ResultsKeepAlive, EdgesOwnNothing, AllDroppedAllReleased); every (state, action) case replayed on all four flavours with drop-counting payloads; released set compared after every step, all result nodes dereferenced, everything dropped at the end",
+  "All states over 3 objects / <=2 weak edges (thorough <=3) incl. cycles and self-loops / <=2 handles / container / one live result x every enabled action, each built from scratch.", "§4 C19")
+
 NOT_YET = {}
 props = [json.loads(l) for l in open(os.path.join(V, "properties.jsonl"))]
 checks = []
